@@ -168,6 +168,9 @@ func c01Triggers(a *analysed) map[string]bool {
 			}
 			if f.T.K == "ref" {
 				if t := decl[f.T.Q]; t != nil {
+					if t.Kind == "named" && t.Under != nil && t.Under.K == "time" && t.PkgPath == a.Env.PkgPath && strings.Contains(strings.ToLower(t.Name), "date") {
+						out["local-date-typed-column"] = true
+					}
 					if t.Kind == "union" {
 						out["union-typed-column"] = true
 					}
@@ -206,6 +209,7 @@ func c01Signature(a *analysed, tg, msg string) string {
 			try(strings.Contains(first, "invalid receiver type") && strings.Contains(first, "interface type"), "union-typed-column"),
 			try(strings.Contains(first, "without instantiation"), "generic-struct-column"),
 			try(strings.Contains(first, "expected operand, found ','"), "table-with-only-an-id"),
+			try(strings.Contains(first, "undefined: NewDateFrom") || strings.Contains(first, "s.Time undefined"), "local-date-typed-column"),
 			try(strings.Contains(first, "declared and not used: item"), "table-without-column"),
 		} {
 			if c != "" {
